@@ -28,6 +28,10 @@ W7 == [nodes |-> <<
   \* values whose decimal texts order differently from the numbers (9 < 99 < 105 but "105" < "9" < "99"), a name of 16 characters
   F7(14, 0, <<"e","1",".","t","x","t">>, Runs(9, 3),   "", 420, 0),
   F7(15, 0, <<"e","2",".","l","o","g">>, Runs(105, 9), "", 420, 1000),
-  F7(16, 11, <<"e","3","-","l","o","n","g","-","n","a","m","e",".","t","x","t">>, Runs(99, 11), "", 420, 0)
+  F7(16, 11, <<"e","3","-","l","o","n","g","-","n","a","m","e",".","t","x","t">>, Runs(99, 11), "", 420, 0),
+  \* one file under three names (hard links, one of them in the sub-directory): three entries, each counted
+  F7(17, 0, <<"h","1",".","t","x","t">>, Runs(4, 1), "", 420, 0),
+  [F7(18, 0, <<"h","2",".","t","x","t">>, Runs(4, 1), "", 420, 0) EXCEPT !.linkto = 17],
+  [F7(19, 11, <<"h","3",".","l","o","g">>, Runs(4, 1), "", 420, 0) EXCEPT !.linkto = 17]
 >>]
 =============================================================================
